@@ -1962,7 +1962,8 @@ fn check_ops(ops: &[String]) -> Option<String> {
         }
         for (_, c) in &v.kids {
             // subtree preserved: the grandchild carrying the id text is still there
-            if c.kids.is_empty() || (c.kids[0].1.name != "g" && c.kids[0].1.name != "a") || !c.kids[0].1.text {
+            // (looked up by name, not by index: the order of the vector is nobody's property)
+            if !c.kids.iter().any(|k| (k.1.name == "g" || k.1.name == "a") && k.1.text) {
                 return Some(format!("after step {step} ({op}) the subtree of child {:?} changed", c.name));
             }
         }
